@@ -131,7 +131,8 @@ Proof.
   rewrite C, Hi, app_length in E. replace (length ex + length b - length b) with (length ex) in E by lia.
   destruct (close_iters_app ex b (flag s) (log s)) as (x & l' & lg' & Ec & P). rewrite Ec in E.
   inversion E; subst o s2; clear E. simpl. split; [reflexivity |]. destruct x.
-  - right. eexists. split; [reflexivity |]. unfold above. simpl. split; [lia |]. split; [exists []; split; reflexivity | exact P].
+  - right. eexists. split; [reflexivity |]. unfold above. simpl. split; [lia |]. split; [exists []; split; reflexivity |].
+    exists []. simpl. apply skipn_app_exact.
   - left. split; [reflexivity |]. unfold at_base. simpl. subst l'. repeat split. lia.
 Qed.
 
@@ -278,12 +279,15 @@ Section Clean.
     apply tree_mutind; unfold Pi, Pc, Ps.
     - (* IEv *) intros e s o s' a r b H Hat Hj. simpl in H. go.
     - (* IProbe *) intros s o s' a r b H Hat Hj. simpl in H. go.
+    - (* IProbeThrow *) intros s o s' a r b H Hat Hj. simpl in H. inversion H; subst.
+      split; [apply J_probe; assumption | apply at_above, at_do_probe; assumption].
     - (* IThrow *) intros s o s' a r b H Hat Hj. simpl in H. inversion H; subst. split; [assumption | apply at_above; assumption].
     - (* ITry *) intros bd IHb hc cb IHc hf fb IHf s o s' a r b H Hat Hj. start s Hat. simpl in H. go.
     - (* ICall *) intros bd IHb s o s' a r b H Hat Hj. start s Hat. simpl in H. go.
     - (* INat *) intros k l [_ [IH _]] s o s' a r b H Hat Hj. start s Hat. simpl in H. destruct k; go.
     - (* IForOf *) intros ret l [IH _] s o s' a r b H Hat Hj. start s Hat. simpl in H. go.
     - (* IGen *) intros l [_ [_ IH]] s o s' a r b H Hat Hj. simpl in H. eapply IH; eauto.
+    - (* IGenRet *) intros pre IHp fin IHf s o s' a r b H Hat Hj. start s Hat. simpl in H. go.
     - (* IAsync *) intros pre IHp post _ s o s' a r b H Hat Hj.
       assert (okjob (JAsync post)) by exact I. start s Hat. simpl in H. go.
     - (* IJob *) intros bd _ s o s' a r b H Hat Hj. assert (okjob (JPlain bd)) by exact I. simpl in H. go.
